@@ -458,6 +458,19 @@ def main(prop, tier='quick', seed=None, replay=None):
         # extra obligations from generated files (C13) are handled by the module itself
         extra = mod.extra_checks(tier) if hasattr(mod, 'extra_checks') else {'violations': [], 'info': {}}
 
+        # confirmation pass: a case that fails is run once more in fresh worker processes; only failures that reproduce
+        # are judged (a worker disturbed by an earlier case, or by a loaded machine, must not raise an alarm)
+        not_reproduced = 0
+        suspects = [i for i, r in enumerate(recs) if judge(mod, r, known_entries)[0] in ('violation', 'corr')]
+        if suspects:
+            sub = suspects[:400]
+            recs2, _ = evaluate(mod, [recs[i]['case'] for i in sub], modes, tier)
+            for i, r2 in zip(sub, recs2):
+                if judge(mod, r2, known_entries)[0] not in ('violation', 'corr'):
+                    recs[i] = r2
+                    not_reproduced += 1
+        timing['failures_not_reproduced_on_rerun'] = not_reproduced
+
         feats, nontrivial = {}, 0
         kinds = {'ok': 0, 'violation': 0, 'corr': 0}
         known_hits = {}
